@@ -128,7 +128,7 @@ Definition validate_cels (layers : arr layer) (tss : zmap (tileset pixels)) (pal
 
 (* ParseInfo::validate + the construction of AsepriteFile *)
 Definition validate (h : header) (p : pinfo) : res file :=
-  let ls := rev (pi_layers_rev p) in
+  let ls := frev (pi_layers_rev p) in
   parents <-- compute_parents ls ;;;
   tss <-- validate_tilesets (pi_palette p) (h_fmt h) (pi_tilesets p) ;;;
   _ <-- validate_layers ls tss ;;;
@@ -143,7 +143,7 @@ Definition validate (h : header) (p : pinfo) : res file :=
         f_ext := pi_ext p;
         f_tilesets := tss;
         f_sprite_ud := pi_sprite_ud p;
-        f_slices := rev (pi_slices_rev p) |}.
+        f_slices := frev (pi_slices_rev p) |}.
 
 Section WithInflate.
 Variable inflate : list Z -> Z -> zres.
